@@ -5,7 +5,6 @@ import (
 	"context"
 	"encoding/json"
 	"fmt"
-	"go/types"
 	"math/big"
 	"os"
 	"os/exec"
@@ -98,10 +97,8 @@ func goLiteral(q *Query, solver, dir string, tv TV, timeoutMs int) (string, erro
 			if !ok {
 				return "", fmt.Errorf("unparsable model value %q", m[v.T])
 			}
-			if t != nil {
-				return fmt.Sprintf("%s(%s)", types.TypeString(t, func(p *types.Package) string { return p.Name() }), n.String()), nil
-			}
-			return n.String(), nil
+			_ = t
+			return n.String(), nil // untyped constant: converts to the builder's parameter type
 		case SStr:
 			if lit, ok := strLitOf[v.T]; ok {
 				return strconv.Quote(lit), nil
